@@ -172,6 +172,44 @@ def mc_property(v, tier, seed, name, prof, fields=mc_suite.ALL_FIELDS, noids=Fal
                     if dx and dy and int(dx.group(1)) > int(dy.group(1)):
                         return (f"run {k}: BFS reports `{x['hdr'].split()[2]}` at depth {dx.group(1)}, but a state at depth {dy.group(1)} "
                                 f"already fails: {y['T'][0][:400]}")
+        # (f) link controls by their documentation: directional disable, partition = both directions of every cross pair,
+        #     node-level incoming / outgoing, disconnect = both, reset heals all, crash_node disconnects the node
+        if not any(l.startswith("runfrom") for l in lines):
+            def apply(net, w):
+                din, dout, links = net
+                if w[0] == "disable": links.add(f"{w[1]}>{w[2]}")
+                elif w[0] == "partition":
+                    k = w.index("/")
+                    for x in w[1:k]:
+                        for y in w[k + 1:]:
+                            links.add(f"{x}>{y}"); links.add(f"{y}>{x}")
+                elif w[0] == "drop_in": din.add(w[1])
+                elif w[0] == "drop_out": dout.add(w[1])
+                elif w[0] == "disconnect": din.add(w[1]); dout.add(w[1])
+                elif w[0] == "reset": din.clear(); dout.clear(); links.clear()
+            base = (set(), set(), set())
+            cur, k = None, 0
+            runs_f = mc_suite.split_runs(impl_out)
+            for l in lines:
+                w = l.split()
+                if w[0] == "net":
+                    apply(base, w[1:])
+                elif w[0] == "cb":
+                    if cur is None:
+                        cur = tuple(set(x) for x in base)
+                    if w[1] == "net": apply(cur, w[2:])
+                    elif w[1] == "crash": cur[0].add(w[2]); cur[1].add(w[2])
+                elif w[0] == "run":
+                    if cur is None:
+                        cur = tuple(set(x) for x in base)
+                    if k < len(runs_f) and runs_f[k].get("net") and runs_f[k]["E"]:
+                        got = dict(kv.split("=", 1) for kv in runs_f[k]["net"].split()[1:])
+                        want = {"din": cur[0], "dout": cur[1], "links": cur[2]}
+                        for key, val in want.items():
+                            if got.get(key) != "[" + ",".join(sorted(val)) + "]":
+                                return (f"run {k}: after the callback's network operations the checker's {key} set is {got.get(key)}, by the "
+                                        f"documented meaning of the link controls it is [{','.join(sorted(val))}]")
+                    cur, k = None, k + 1
         # (e) a staged run shares one visited cache across its start states
         runs_e = mc_suite.split_runs(impl_out)
         rl = [l for l in lines if l.startswith(("run ", "runfrom "))]
@@ -289,6 +327,35 @@ def rand_cache_probe(v, tier, seed, name="rand_cache_modes"):
         "rule": "implementation vs implementation: script processes that put ctx.rand() draws into their outbox, explored with dfs/bfs x "
                 "full/partial/disabled; Ok/Err and the evaluated state sets must agree"})
     return nviol
+
+
+def gen_mc_link_matrix(rng, tier):
+    """the checker's own link controls: a random sequence of McNetwork operations in the callback (directional disables,
+    partitions in both orientations, node-level controls, reset), then every process sends to every other one"""
+    out = []
+    n = 120 if tier == "quick" else 3000
+    for i in range(n):
+        nn = rng.choice([2, 3, 3])
+        nodes = [f"n{j}" for j in range(nn)]
+        procs = [f"p{j}" for j in range(nn + rng.choice([0, 1]))]
+        loc = {p: nodes[j % nn] for j, p in enumerate(procs)}
+        lines = [f"node {x}" for x in nodes] + [f"proc {p} {loc[p]}" for p in procs]
+        for p in procs:
+            sends = " ".join(f"S:m1:=x{p[1]}:{q}" for q in procs if q != p)
+            lines.append(f"rule {p} 0 L:m0 1 {sends}")
+            lines.append(f"rule {p} 0 M:m1 0 L:m2:$")
+            lines.append(f"rule {p} 1 M:m1 1 L:m2:$")
+        for _ in range(rng.randint(1, 6)):
+            a, b = rng.sample(nodes, 2)
+            rest = [x for x in nodes if x not in (a, b)]
+            lines.append("cb net " + rng.choice([f"disable {a} {b}", f"disable {b} {a}", f"partition {a} / {b}", f"partition {b} / {a}",
+                                                 f"partition {a} / {' '.join([b] + rest)}", f"drop_in {a}", f"drop_out {a}", f"disconnect {a}",
+                                                 "reset"]))
+        for p in procs:
+            lines.append(f"cb local {p} m0 =go")
+        lines.append(f"run {rng.choice(['dfs', 'bfs'])} {rng.choice(['full', 'disabled'])} inv=none goal=noev prune=none collect=none")
+        out.append((f"lm{i}", ["refenum"] + lines))
+    return out
 
 
 def gen_crash_then_heal(rng, tier):
